@@ -3,6 +3,7 @@ import ast
 
 from ..model import (AnalysisError, FUNC_TYPES, U, call_attr, call_name, dotted, enclosing, enclosing_function, guard_texts, guards_ex,
                      short, walk_body, walk_local, ancestors, parent, const_str, kwarg, literal, qual_of)
+from .. import feat
 from ..util import params, find_calls, assigns_to, trace, stmt_of, has_exit, syn_dominates
 from . import c06
 
@@ -67,9 +68,26 @@ def r1_writer_side(cx, classes):
     res = [a for a in walk_body(cc.body) if isinstance(a, ast.Assign) and U(a.targets[0]) == "content" and isinstance(a.value, ast.Call) and a.value is call]
     cx.require(bool(ret) and all(U(r.value) == "content" for r in ret) and len(res) == 1 and any(r.lineno > res[0].lineno for r in ret), ret[0] if ret else cc, "the cleaned result replaces the content that is returned",
                construct="content = self.cleaner.clean_content(...); return content")
+    # the conditions under which a cleaning step is announced, as guard atoms: from appends, or from a literal (label, wanted) table filtered by 'wanted'
+    from ..model import _flatten_atom
+
+    def _atoms(test):
+        out = []
+        _flatten_atom(test, True, out)
+        return sorted((U(e), p) for e, p in out)
     ap = [x for x in find_calls(cc.body, attr="append") if U(x.func.value) == "cleans"]
-    conds = sorted(U(parent(x).test) if isinstance(parent(x), ast.IfExp) else str(sorted(guard_texts(x) - allowed)) for x in ap)
-    want = sorted(["not no_red", "set(no_obf) != DEFAULT_OBFUSCATIONS", "[('self._filterable', True)]"])
+    conds = [_atoms(parent(x).test) if isinstance(parent(x), ast.IfExp) else sorted(guard_texts(x) - allowed) for x in ap]
+    if not ap:
+        cd = [a for a in walk_body(cc.body) if isinstance(a, ast.Assign) and U(a.targets[0]) == "cleans" and isinstance(a.value, ast.ListComp)]
+        if len(cd) == 1:
+            lc = cd[0].value
+            g0 = lc.generators[0]
+            tbl = trace(g0.iter, cc)
+            if len(lc.generators) == 1 and isinstance(g0.target, ast.Tuple) and len(g0.target.elts) == 2 and [U(i) for i in g0.ifs] == [U(g0.target.elts[1])] \
+                    and isinstance(tbl, (ast.Tuple, ast.List)) and all(isinstance(e, ast.Tuple) and len(e.elts) == 2 for e in tbl.elts):
+                conds = [_atoms(trace(e.elts[1], cc)) for e in tbl.elts]
+    conds = sorted(conds)
+    want = sorted([[("no_red", False)], [("set(no_obf) == DEFAULT_OBFUSCATIONS", False)], [("self._filterable", True)]])
     cx.require(conds == want, cc, "'nothing to clean' means: no_redact set, every obfuscation excluded and not filterable", construct="cleans.append conditions: %s" % conds)
 
 
@@ -230,13 +248,71 @@ def r3_redaction(cx):
     none_rets = [r for r in rets if r.value is None or U(r.value) == "None"]
     if not none_rets:
         cx.bad(fn, "Pattern.parse_line drops a matching line (returns None)", construct="(no 'return None')")
+    line_p = params(fn)[1]
+
+    def _modes(expr_text, under):
+        """{True/False (regex mode): canonical per-pattern test} for a quantified match expression, or None."""
+        try:
+            e = ast.parse(expr_text, mode="eval").body
+        except SyntaxError:
+            return None
+        if not (isinstance(e, ast.Call) and call_name(e) == "any" and len(e.args) == 1 and isinstance(e.args[0], (ast.GeneratorExp, ast.ListComp))):
+            return None
+        gen = e.args[0]
+        if len(gen.generators) != 1 or gen.generators[0].ifs or U(gen.generators[0].iter) != "self._exclude" or not isinstance(gen.generators[0].target, ast.Name):
+            return None
+        pv = gen.generators[0].target.id
+        elt = gen.elt
+        out = {}
+        if isinstance(elt, ast.Call) and isinstance(elt.func, ast.Name) and elt.func.id != "re" and len(elt.args) == 2 and [U(a) for a in elt.args] == [pv, line_p]:
+            # find(pat, line) with find chosen by mode
+            fd_ = [a for a in walk_body(fn.body) if isinstance(a, ast.Assign) and U(a.targets[0]) == elt.func.id]
+            if len(fd_) != 1 or not isinstance(fd_[0].value, ast.IfExp) or U(fd_[0].value.test) != "self._regex":
+                return None
+            for mode, f in ((True, fd_[0].value.body), (False, fd_[0].value.orelse)):
+                if U(f) == "re.search":
+                    out[mode] = "re.search(P, line)"
+                elif isinstance(f, ast.Lambda) and len(f.args.args) == 2 and U(f.body) == "%s in %s" % (f.args.args[0].arg, f.args.args[1].arg):
+                    out[mode] = "P in line"
+                else:
+                    out[mode] = U(f)
+            return out
+        t = U(elt)
+        canon = "re.search(P, line)" if t == "re.search(%s, %s)" % (pv, line_p) else "P in line" if t == "%s in %s" % (pv, line_p) else t
+        for mode in ((True, False) if under is None else (under,)):
+            out[mode] = canon
+        return out
     for r in none_rets:
-        g = set((U(e), p) for e, p, o in guards_ex(r) if o == "nest")
-        ok = len(g) == 1 and list(g)[0][1] and list(g)[0][0] in ("any((find(pat, line) for pat in self._exclude))",)
-        cx.require(ok, r, "the line is dropped iff any configured pattern matches (any over all patterns)", construct="return None guarded by %s" % sorted(g))
-    fd = [a for a in walk_body(fn.body) if isinstance(a, ast.Assign) and U(a.targets[0]) == "find"]
-    ok = len(fd) == 1 and isinstance(fd[0].value, ast.IfExp) and U(fd[0].value.body) == "re.search" and U(fd[0].value.test) == "self._regex" and U(fd[0].value.orelse) == "lambda x, y: x in y"
-    cx.require(ok, fd[0] if fd else fn, "regex patterns use re.search (anywhere in the line), plain patterns substring containment", construct=short(fd[0]) if fd else "(none)")
+        g = set((U(e), p) for e, p, o in guards_ex(r)) - set([(line_p, True)])      # 'if not line: return line' comes first
+        modes = {}
+        ok = len(g) == 1 and list(g)[0][1]
+        if ok:
+            t = list(g)[0][0]
+            if t.isidentifier():
+                cases = feat.value_cases(fn, t, before=r)
+                ok = cases is not None
+                for cg, v in (cases or ()):
+                    under = None
+                    if cg == frozenset([("self._regex", True)]):
+                        under = True
+                    elif cg == frozenset([("self._regex", False)]):
+                        under = False
+                    elif cg:
+                        ok = False
+                    mm = _modes(v, under)
+                    if mm is None:
+                        ok = False
+                    else:
+                        modes.update(mm)
+            else:
+                mm = _modes(t, None)
+                ok = mm is not None
+                modes = mm or {}
+        ok = ok and modes == {True: "re.search(P, line)", False: "P in line"}
+        cx.require(ok, r, "the line is dropped iff any configured pattern matches: regex patterns with re.search (anywhere in the line), plain patterns by substring containment, any over all patterns",
+                   construct="return None guarded by %s; per-mode test %s" % (sorted(g), modes))
+    keep = [r for r in rets if r not in none_rets]
+    cx.require(bool(keep) and all(U(r.value) == line_p for r in keep), keep[0] if keep else fn, "a line that matches no pattern is returned unchanged", construct="; ".join(short(r) for r in keep) if keep else "(none)")
     init = pm.func("Pattern.__init__", "C08.R3")
     ex = [a for a in walk_body(init.body) if isinstance(a, ast.Assign) and U(a.targets[0]) == "self._exclude"]
     cx.require(len(ex) == 1 and U(ex[0].value) in ("exclude or []", "exclude"), ex[0] if ex else init, "all configured patterns are kept", construct=short(ex[0]) if ex else "(none)")
@@ -362,16 +438,16 @@ def r6_global_substitution(cx):
     # password template
     pw = cx.repo.module("insights.cleaner.password")
     fp = pw.func("Password.parse_line", "C08.R6")
-    subs = [x for x in find_calls(fp.body, name="re.sub")]
-    ok = len(subs) == 1 and len(subs[0].args) == 3 and kwarg(subs[0], "count") is None and const_str(subs[0].args[1]) is not None
-    tmpl = const_str(subs[0].args[1]) if subs else ""
+    subs = feat.sub_calls(fp.body)
+    lp = [s_ for s_ in fp.body if isinstance(s_, ast.For)]
+    ok = len(subs) == 1 and subs[0][4] is None and const_str(subs[0][2]) is not None and bool(lp) and U(subs[0][1]) == U(lp[0].target)
+    tmpl = const_str(subs[0][2]) if subs else ""
     import re as _re
     refs = set(_re.findall(r"\\(\d)", tmpl or ""))
-    cx.require(ok and refs == set(["1", "2"]) and "\\3" not in (tmpl or ""), subs[0] if subs else fp,
+    cx.require(ok and refs == set(["1", "2"]) and "\\3" not in (tmpl or ""), subs[0][0] if subs else fp,
                "the password template re-emits the key and the separator (groups 1, 2) and never the secret (group 3); all occurrences are substituted",
-               construct=short(subs[0]) if subs else "(no re.sub)")
-    lp = [s for s in fp.body if isinstance(s, ast.For)]
-    cx.require(bool(lp) and U(lp[0].iter) == "DEFAULT_PASSWORD_REGEXS", lp[0] if lp else fp, "every password expression is tried until one changes the line",
+               construct=short(subs[0][0]) if subs else "(no substitution call)")
+    cx.require(bool(lp) and feat.regex_table_of(pw, lp[0].iter) == "DEFAULT_PASSWORD_REGEXS", lp[0] if lp else fp, "every password expression is tried until one changes the line",
                construct="for regex in %s" % (U(lp[0].iter) if lp else "?"))
 
 
